@@ -148,3 +148,16 @@ pub fn steps_used() -> u64 {
     saito_core::core::verif_hooks::validate_steps_used()
 }
 pub const LIVELOCK_MSG: &str = "exceeded its step budget";
+
+/// poll a future to completion without catching panics (for use inside `catch`)
+pub fn poll_plain<F: Future>(fut: F) -> Option<F::Output> {
+    let waker = unsafe { Waker::from_raw(noop_raw()) };
+    let mut cx = Context::from_waker(&waker);
+    let mut fut = Box::pin(fut);
+    for _ in 0..64 {
+        if let Poll::Ready(v) = Pin::as_mut(&mut fut).poll(&mut cx) {
+            return Some(v);
+        }
+    }
+    None
+}
